@@ -146,7 +146,8 @@ namespace avel {
 
     [[nodiscard]]
     AVEL_FINL double fdim(double x, double y) {
-        return avel::max(x - y, 0.0);
+        //x - y is NaN for equal infinities; <cmath>'s fdim returns +0 there
+        return (x <= y) ? 0.0 : x - y;
     }
 
     [[nodiscard]]
